@@ -100,14 +100,35 @@ class C14(core.Check):
 
     def judge_doc(self, case):
         rnd = random.Random(case['s'])
-        d = gdocs.random_document(rnd, size=rnd.randint(2, 7), lang=case['lang'], kinds=DOC_KINDS, max_depth=4,
-                                  pack='*', theorems=False, preamble=case['s'] % 3 != 0)
+        plain_input = case['s'] % 7 == 3
+        if plain_input:
+            # --plain-input: the file is submitted as it is (identity map), LaTeX-looking material stays literal
+            d = gdocs.Doc()
+            d.words = []
+            txt = ''
+            for k in range(rnd.randint(3, 40)):
+                w = 'w%sz' % gdocs.b33(k + 1) + rnd.choice(['', '', 'ä', '\U0001d538'])
+                d.words.append((w + 'z' if not w.endswith('z') else w, len(txt), ()))
+                txt += d.words[-1][0] + rnd.choice([' ', ' ', '\n', '. ', ' \\alpha ', ' $x$ ', ' % c\n', '\n\n', ' {} ', '\t'])
+            d.src = txt
+        else:
+            d = gdocs.random_document(rnd, size=rnd.randint(2, 7), lang=case['lang'], kinds=DOC_KINDS, max_depth=4,
+                                      pack='*', theorems=False, preamble=case['s'] % 3 != 0)
         src = d.src if case['newline_end'] else d.src.rstrip('\n')
         lang = {'en': 'en-GB', 'de': 'de-DE', 'ru': 'ru-RU'}[case['lang']]
         plan = {'mode': 'words', 'regex': WORD, 'every': case['every']}
         words = {w: st for w, st, path in d.words}
         cnt = {'fam_doc': 1}
-        base = ['--language', lang, 'f.tex']
+        base = ['--language', lang]
+        own = case['s'] % 4 == 1
+        if own:
+            # the shell's own checks add messages that are merged and sorted with the proofreader's
+            base += ['--single-letters', 'A|I||', '--equation-punctuation', 'all']
+            cnt['docs_with_own_checks'] = 1
+        if plain_input:
+            base.append('--plain-input')
+            cnt['plain_input_docs'] = 1
+        base.append('f.tex')
         results = {}
         modes = ['plain', 'json', 'xml-b' if case['xmlb'] else 'xml', 'html']
         for mode in modes:
@@ -131,7 +152,12 @@ class C14(core.Check):
             return dict(ok=False, nt=True, key='calls', cnt=cnt, obs=None,
                         detail=dict(src=src, calls=len(results['json'].calls)))
         # ---- json
-        jm = json.loads(results['json'].out.decode('utf-8'))['matches']
+        jm_all = json.loads(results['json'].out.decode('utf-8'))['matches']
+        offs_all = [m['offset'] for m in jm_all]
+        if offs_all != sorted(offs_all):
+            return dict(ok=False, nt=True, key='json:order-with-own-checks' if own else 'json:order', cnt=cnt, obs=None,
+                        detail=dict(src=src, offsets=offs_all))
+        jm = [m for m in jm_all if m['message'].startswith('MSG')]
         locs = {}
         order = []
         for m in jm:
@@ -157,6 +183,10 @@ class C14(core.Check):
             return dict(ok=False, nt=True, key='json:order', cnt=cnt, obs=None, detail=dict(src=src, offsets=order))
         # ---- plain
         pt = results['plain'].out.decode('utf-8')
+        blocks_all = re.findall(r'=== f\.tex ===\n(\d+)\.\) Line (\d+), column (\d+), Rule ID: (\S+)\nMessage: (.*)\n', pt)
+        if [int(b[0]) for b in blocks_all] != list(range(1, len(blocks_all) + 1)) or len(blocks_all) != len(jm_all):
+            return dict(ok=False, nt=True, key='plain:numbering', cnt=cnt, obs=None,
+                        detail=dict(src=src, text=pt[:500], n_json=len(jm_all)))
         blocks = re.findall(r'=== f\.tex ===\n(\d+)\.\) Line (\d+), column (\d+), Rule ID: (\S+)\nMessage: (MSG[^:]*):(.*)\n'
                             r'Suggestion: .*\n(.*)\n( *)(\^*)\n', pt)
         seen = []
@@ -175,8 +205,6 @@ class C14(core.Check):
             return dict(ok=False, nt=True, key='plain-vs-json:messages', cnt=cnt, obs=None,
                         detail=dict(src=src, plain=[b[4] for b in blocks],
                                     json=[m['message'].split(':', 1)[0] for m in jm]))
-        if [int(b[0]) for b in blocks] != list(range(1, len(blocks) + 1)):
-            return dict(ok=False, nt=True, key='plain:numbering', cnt=cnt, obs=None, detail=dict(src=src, text=pt[:500]))
         # ---- xml / xml-b
         xmode = 'xml-b' if case['xmlb'] else 'xml'
         xt = results[xmode].out.decode('utf-8')
@@ -185,7 +213,7 @@ class C14(core.Check):
         except ET.ParseError as e:
             return dict(ok=False, nt=True, key='xml:not-well-formed', cnt=cnt, obs=None,
                         detail=dict(src=src, xml=xt[:800], error=str(e)))
-        errs = root.findall('error')
+        errs = [e for e in root.findall('error') if e.get('msg').startswith('MSG')]
         if [e.get('msg').split(':', 1)[0] for e in errs] != [m['message'].split(':', 1)[0] for m in jm]:
             return dict(ok=False, nt=True, key='xml-vs-json:messages', cnt=cnt, obs=None, detail=dict(src=src, xml=xt[:800]))
         for e in errs:
@@ -435,7 +463,7 @@ class C14(core.Check):
         return dict(ok=True, nt=True, key=None, cnt=cnt, obs=dict(requests=case['nreq'], port=port))
 
     def quotas(self, tier):
-        return {'fam_doc': 40, 'flagged_words_judged': 300, 'fam_ml': 25, 'ml_words_judged': 100,
+        return {'fam_doc': 40, 'docs_with_own_checks': 10, 'plain_input_docs': 8, 'flagged_words_judged': 300, 'fam_ml': 25, 'ml_words_judged': 100,
                 'ml_runs_with_several_parts': 10, 'ml_short_parts': 5, 'pairs_judged': 50, 'server_requests': 10,
                 'docs_with_non_ascii_words': 5}
 
